@@ -45,8 +45,9 @@ func runC17Net(o *opts) (*summary, error) {
 	// what the farm answers with: set before every call
 	var mu sync.Mutex
 	var answer func(req []byte) [][]byte
-	nreq := 0 // request datagrams that reached the farm since the current call was set up
-	var wire []byte // ... and the first of them, as it arrived
+	closeNow := false // (TCP) read the request, then end the stream without a byte of reply
+	nreq := 0         // request datagrams that reached the farm since the current call was set up
+	var wire []byte   // ... and the first of them, as it arrived
 	reply := func(req []byte) [][]byte {
 		mu.Lock()
 		defer mu.Unlock()
@@ -96,7 +97,14 @@ func runC17Net(o *opts) (*summary, error) {
 				buf := make([]byte, 2048)
 				conn.SetReadDeadline(time.Now().Add(time.Second))
 				if n, err := conn.Read(buf); err == nil && n == 64 {
-					for _, m := range reply(append([]byte{}, buf[:64]...)) {
+					ms := reply(append([]byte{}, buf[:64]...))
+					mu.Lock()
+					cn := closeNow
+					mu.Unlock()
+					if cn {
+						return
+					}
+					for _, m := range ms {
 						conn.Write(m)
 					}
 				}
@@ -322,6 +330,57 @@ func runC17Net(o *opts) (*summary, error) {
 					"kept": M{"path": k.path, "later": later}, "nreq": k.nreq}, "kept-"+k.path, fmt.Sprintf("%s/%s/%d", k.op, k.path, rep))
 			}
 		}
+	}
+	// a reply that is byte for byte the request (open-door 1 answered "succeeded", get-cards answered "no cards", ...) is a
+	// reply like any other: whatever the call makes of it, it makes of THAT datagram
+	for _, path := range paths {
+		for _, op := range replyOps() {
+			cs := g.call(op, serials[path])
+			k := &kept{op: op, path: path, cs: cs}
+			mu.Lock()
+			nreq, wire = 0, nil
+			answer = func(req []byte) [][]byte {
+				m := append([]byte{}, req...)
+				k.deliv = []any{M{"b": ints(m), "keep": true}}
+				return [][]byte{m}
+			}
+			mu.Unlock()
+			if p, msg := guard(func() { k.v, k.err = cs.call(u) }); p {
+				k.ret = M{"t": "panic", "msg": msg}
+			} else {
+				k.ret = projRet(k.v, k.err)
+			}
+			time.Sleep(2 * time.Millisecond)
+			mu.Lock()
+			k.nreq, k.wire = nreq, wire
+			answer = nil
+			if k.deliv == nil {
+				k.deliv = []any{}
+			}
+			mu.Unlock()
+			w.put(M{"op": k.op, "a": k.cs.args, "sent": sentOf(k.wire), "route": M{"m": "none"}, "ncalls": 1, "delivered": k.deliv,
+				"ret": k.ret, "ret_later": k.ret, "render": render(k.v, k.err), "cfg": cfgP,
+				"kept": M{"path": k.path, "later": []any{"echo"}}, "nreq": k.nreq}, "kept-echo-"+k.path, fmt.Sprintf("echo/%s/%s", k.op, k.path))
+		}
+	}
+	// a TCP controller that reads the request and ends the stream without a byte: the call fails - after ONE request
+	for i, op := range replyOps() {
+		if i%3 != 0 {
+			continue
+		}
+		cs := g.call(op, serials["tcp"])
+		mu.Lock()
+		nreq, wire, closeNow = 0, nil, true
+		answer = func(req []byte) [][]byte { return nil }
+		mu.Unlock()
+		var err error
+		pn, _ := guard(func() { _, err = cs.call(u) })
+		time.Sleep(5 * time.Millisecond)
+		mu.Lock()
+		n := nreq
+		closeNow, answer = false, nil
+		mu.Unlock()
+		w.put(M{"op": "Requests", "what": "tcp-peer-closes-without-reply:" + op, "nreq": n, "failed": err != nil, "panicked": pn}, "requests", "closed/"+op)
 	}
 	return w.close(), nil
 }
